@@ -599,3 +599,30 @@ func zzH_C19_e2e_sharedResult() {
 		zzE2ESameMultiset(gk, gv, wk, wv, "concurrent run")
 	}
 }
+
+func zzFoldSum(acc, v int64) int64 { return acc + v }
+
+var zzE2EFold = bigslice.Func(func(nshard int, keys, vals []int64) bigslice.Slice {
+	return bigslice.Fold(bigslice.Const(nshard, keys, vals), zzFoldSum)
+})
+
+// zzH_C01_e2e_fold: Const -> Fold through the whole run (a keyed shuffle
+// without a combiner, accumulation in the consumer): one row per distinct key
+// with the sum of its values.
+func zzH_C01_e2e_fold() {
+	old := *defaultChunksize
+	*defaultChunksize = 2
+	defer func() { *defaultChunksize = old }()
+	sess := Start(Local, Parallelism(1))
+	nshard := zz.AnyIntIn("nshard", 1, 2)
+	keys, vals := zzE2ERows(zz.AnyIntIn("rows", 0, 2))
+	res, err := sess.Run(context.Background(), zzE2EFold, nshard, keys, vals)
+	zz.Assert(err == nil, "a failure-free program runs to success")
+	if err != nil {
+		return
+	}
+	gk, gv, err := zzE2EScan(res)
+	zz.Assert(err == nil, "scanning a successful result does not fail")
+	zz.Reach("scanned")
+	zzE2EKeyed(gk, gv, keys, vals, "Fold")
+}
